@@ -329,26 +329,31 @@ fn has_adjacent_text(w: &World, abs: &J) -> bool {
 /// The live document is queried with ONE evaluation context for the whole history (`live_ctx`): whatever a context
 /// remembers must not outlive an edit.  The re-parsed copy gets a fresh one.
 fn queries(w: &World, abs: &J, out: &mut dyn Write, live_ctx: &mut xml_xpath::eval::model::Context) -> usize {
-    if has_adjacent_text(w, abs) {
-        return 0;
-    }
     let doc = match w.node(1) {
         XmlNode::Document(d) => d.clone(),
         _ => return 0,
     };
-    let text = match w.print() {
-        Some(t) => t,
-        None => return 0, // printing is C15's business
-    };
-    let re = match guarded(|| xml_dom::XmlDocument::from_raw(&text).map(|(r, d)| (r.is_empty(), d)).map_err(|e| e.to_string())) {
-        Ok(Ok((true, d))) => d,
-        _ => return 0, // serializability is C15's business
-    };
+    // the comparison with a fresh parse needs a document that has a faithful serialization (no adjacent or empty Text
+    // nodes; printing and parsing are C15's business); the STRUCTURE of the node-sets (C07) is judged on every document
+    let mut re: Option<xml_dom::XmlDocument> = None;
+    let mut text = String::new();
+    if !has_adjacent_text(w, abs) {
+        if let Some(t) = w.print() {
+            if let Ok(Ok((true, d))) = guarded(|| xml_dom::XmlDocument::from_raw(&t).map(|(r, d)| (r.is_empty(), d)).map_err(|e| e.to_string())) {
+                re = Some(d);
+                text = t;
+            }
+        }
+    }
     let mut k = 0;
     for expr in BATTERY {
         let (live, idx) = run_query(&doc, expr, live_ctx);
-        let (rep, _) = run_query(&re, expr, &mut Default::default());
-        writeln!(out, "{}", json!({"event": "query", "expr": expr, "live": live, "re": rep, "idx": idx, "text": text})).unwrap();
+        let rep = match &re {
+            Some(d) => run_query(d, expr, &mut Default::default()).0,
+            None => live.clone(), // not comparable: nothing to say for C14
+        };
+        writeln!(out, "{}", json!({"event": "query", "expr": expr, "live": live, "re": rep, "idx": idx, "text": text,
+                                   "comparable": re.is_some()})).unwrap();
         k += 1;
     }
     k
